@@ -6,7 +6,7 @@ from hypothesis import strategies as st
 
 from ..gen import windsea as W
 from ..gen.common import fl
-from ..harness import SubCheck, require
+from ..harness import SubCheck, Violation, require
 
 G = 9.81
 
@@ -94,6 +94,7 @@ def run(c):
     md = np.asarray(dis.mean_direction_degrees(spec).values, dtype=float)
     nontriv = False
     skipped = 0
+    excluded = {}
     # batch of probe winds per point: U-0.05, U+0.05, 2, 40
     probes = []
     owner = []
@@ -124,16 +125,31 @@ def run(c):
                 if not (math.isfinite(b_lo) and math.isfinite(b_hi)):
                     skipped += 1
                 else:
-                    require(b_lo * b_hi <= 0, "estimated_wind_closes_the_balance",
-                            f"point {i}: u10={U[i]!r} dir={Dir[i]!r} B(U-0.05)={b_lo!r} B(U+0.05)={b_hi!r} "
-                            f"bulk dissipation={Bd[i]!r}")
+                    # known finding F28: with a supplied rate of change the balance is a discontinuous function of U (bins
+                    # enter the "actively forced" set one by one); the solver's finite-difference derivative across such a
+                    # jump is huge, the Newton step tiny, and it can stop next to a jump at which the balance does NOT
+                    # change sign. Such stops (same sign on both sides, residual below 3 % of the dissipation) are counted,
+                    # not reported - except for the documented input, which carries the match of the known entry.
+                    jump_stop = (dE is not None and b_lo * b_hi > 0 and
+                                 max(abs(b_lo), abs(b_hi)) <= 0.03 * abs(Bd[i]))
+                    if jump_stop and not c.get("document_f28"):
+                        excluded["stopped_at_a_jump_of_the_rate_of_change_term"] = \
+                            excluded.get("stopped_at_a_jump_of_the_rate_of_change_term", 0) + 1
+                    elif b_lo * b_hi > 0:
+                        raise Violation("estimated_wind_closes_the_balance",
+                                        f"point {i}: u10={U[i]!r} dir={Dir[i]!r} B(U-0.05)={b_lo!r} B(U+0.05)={b_hi!r} "
+                                        f"bulk dissipation={Bd[i]!r}",
+                                        match={"solver_stopped_at_rate_of_change_jump": bool(jump_stop and c.get("document_f28"))})
                     if 2 < U[i] < 40:
                         nontriv = True
             lows = [b for b in (b2, b5, b10) if math.isfinite(b)]
             if lows and math.isfinite(b40) and min(lows) < 0 < b40:
                 classes.append("root_in_2_40")
             # non-degeneracy is stated for first guesses from the equilibrium-range estimate
-            if lows and math.isfinite(b40) and min(lows) < 0 < b40 and c["guess"] == "equilibrium":
+            # ... and for seas steep enough for a non-negligible dissipation (the property's quantifier): the low-steepness
+            # cases of the generator exist for the zero-dissipation clause only
+            steepness = c["points"][i]["hs"] * 2 * math.pi * c["points"][i]["fp"] ** 2 / G
+            if lows and math.isfinite(b40) and min(lows) < 0 < b40 and c["guess"] == "equilibrium" and steepness >= 0.03:
                 require(math.isfinite(U[i]), "estimate_not_degenerate",
                         f"point {i}: the balance changes sign between 2 and 40 m/s (B(2,5,10)={b2!r},{b5!r},{b10!r}; "
                         f"B(40)={b40!r}) but u10 is NaN")
@@ -179,7 +195,7 @@ def run(c):
         classes.append("finite_depth")
     if np.isnan(U).any():
         classes.append("estimate_nan")
-    return {"nontrivial": nontriv, "classes": sorted(set(classes)), "excluded": {"balance_probe_undefined": skipped}}
+    return {"nontrivial": nontriv, "classes": sorted(set(classes)), "excluded": dict(excluded, balance_probe_undefined=skipped)}
 
 
 def fixed_cases():
